@@ -10,6 +10,7 @@ def run():
     wd = common.workdir("selftest")
     n = 0
     n += obs_selftest(wd)
+    n += hooks_selftest(wd)
     log("selftest ok: %d corrupted observations rejected, clean ones accepted" % n)
     return 0
 
@@ -57,3 +58,31 @@ def obs_selftest(wd):
                 raise ToolError("selftest: corrupted %s observation (%s) not rejected: %s" % (prop, c, rj.get(i)))
             k += 1
     return k
+
+
+def hooks_selftest(wd):
+    """TraceServerImpl binds ServerImpl.tla to the hook log: a recorded log is accepted, corrupted ones are rejected at the corrupted step"""
+    import copy
+    import p_server
+    h = json.load(open(os.path.join(os.path.dirname(os.path.abspath(__file__)), "fixtures", "hooks_probe.json")))
+    logs = {0: h}
+    h1 = copy.deepcopy(h)
+    e = h1.pop(h1.index(["task1", "publish", 0]))
+    j = [k for k, x in enumerate(h1) if x[:2] == ["main", "content_set"]][1]
+    h1.insert(j + 1, e)
+    logs[1] = h1                                                   # a publish after the next input write
+    logs[2] = [x for x in h if x[1] != "vfs_w_acquired"]          # a hook removed
+    h3 = copy.deepcopy(h)
+    a = h3.index(["main", "content_set", 0])
+    h3[a], h3[a + 1] = h3[a + 1], h3[a]
+    logs[3] = h3                                                   # two steps of the main loop swapped
+    logs[4] = [x for x in h if x[:2] != ["task2", "start"]]       # a task that never started ends
+    h5 = copy.deepcopy(h)
+    h5.append(h5.pop(h5.index(["task1", "end", 0])))
+    logs[5] = h5                                                   # an end reported late: still a behaviour
+    verdicts, _ = p_server.validate_hooks(logs, wd, "selftest")
+    want = {0: "accepted", 1: "rejected", 2: "rejected", 3: "rejected", 4: "rejected", 5: "accepted"}
+    for k, w in want.items():
+        if verdicts.get(k, ("none",))[0] != w:
+            raise ToolError("selftest: hook log %d should be %s by TraceServerImpl, got %s" % (k, w, verdicts.get(k)))
+    return len(want)
